@@ -141,6 +141,7 @@ func (ps poolSpec) configMap() map[string]interface{} {
 	}
 	if ps.Preload {
 		ammo["preload"] = true
+	}
 	if ps.MaxAmmoSize > 0 {
 		ammo["maxammosize"] = ps.MaxAmmoSize
 	}
